@@ -573,7 +573,8 @@ def check_c18(idx: Index, tier: str, res: Result) -> None:
                        "session state has lock=False and is a copy.")
     res.rules = ["TYPESTATE: may-analysis {U,L} to every exit kind", "HELD: must-hold at run_step call sites",
                  "ATOMIC: is_locked()...lock() on one receiver is check-then-act",
-                 "PERSIST: InstanceState built from a scrubbed deep copy"]
+                 "PERSIST: InstanceState built from a scrubbed deep copy; the live lock flag is written by lock()/unlock() only",
+                 "CLOCK: the session clock is normalised with the digits of start and dt"]
     res.not_decided = ["exhaustive thread schedules (model checking)",
                        "that the session clock advances by exactly the number of steps returned for every schedule"]
     res.assumptions = ["bptk.lock/unlock/is_locked are guarded dict accesses and cannot raise (checked structurally)",
@@ -666,14 +667,39 @@ def check_c18(idx: Index, tier: str, res: Result) -> None:
                           src(locks[0]), "lock() is taken without testing whether another request holds it",
                           key="ATOMIC/%s/blind-lock" % fi.qual)
 
+    # the session clock moves on the session's grid: no simulation time is served twice (a clock rounded with too few digits sticks)
+    from .timegrid import normalize_sites_rule
+    normalize_sites_rule(idx, res, "CLOCK", prefixes=("BPTK_Py/bptk.py",))
     # (4) persisted copies
     gis = idx.func(SERVER, "InstanceManager._get_instance_state")
     cons = [c for c in iter_calls(gis.node) if call_name(c) == "InstanceState"]
     if not cons:
         raise AnalysisError("anchor vanished: InstanceState(...) in _get_instance_state")
     assigns = single_assignments(gis.node)
+    # the live lock flag belongs to the request in flight: outside bptk.lock/unlock (and the initialisation of a new session state) nothing
+    # stores into <live session_state>["lock"]; snapshots are scrubbed on their deep copy
+    from ..util import deref as _deref
+    nlw = 0
+    for fi in list(idx.all_funcs("BPTK_Py/server/")) + list(idx.all_funcs("BPTK_Py/bptk.py")) + list(idx.all_funcs("BPTK_Py/externalstateadapter/")):
+        if fi.qual in ("bptk.lock", "bptk.unlock", "bptk._set_state", "bptk.begin_session"):
+            continue
+        for n in walk_no_nested(fi.node):
+            if isinstance(n, ast.Assign) and any(isinstance(t, ast.Subscript) and const_str(t.slice) == "lock" for t in n.targets):
+                t = [t for t in n.targets if isinstance(t, ast.Subscript) and const_str(t.slice) == "lock"][0]
+                base = _deref(fi.node, t.value)
+                nlw += 1
+                is_snapshot = isinstance(base, ast.Call) and call_name(base) in ("deepcopy", "copy", "dict")
+                live = "session_state" in src(base) and not is_snapshot
+                res.check("PERSIST", "%s writes the lock flag of a snapshot, not of the live session" % fi.qual, not live, fi.loc(n), fi.qual, norm_stmt(n)[:90],
+                          "%s stores into the lock flag of %s, the live session state: taking a snapshot (save-state, any externalisation) releases the "
+                          "lock of a request that is still running, and another step-advancing request is accepted in the middle of it"
+                          % (fi.qual, src(base)[:60]), key="PERSIST/%s/live-lock-written" % fi.qual)
+    res.floor("stores into a lock flag outside the lock API", nlw, 1)
     for c in cons:
         a0 = c.args[0] if c.args else None
+        if isinstance(a0, ast.Call) and call_name(a0) == "deepcopy":
+            res.ob("PERSIST", "persisted state is a deep copy (made in the constructor call)", True)
+            continue
         if not isinstance(a0, ast.Name):
             raise AnalysisError("InstanceState state argument is not a local name")
         vals = assigns.get(a0.id, [])
@@ -783,6 +809,32 @@ def _linear(e: ast.AST, kinds: Dict[str, str], sign: int, acc: Dict[str, int]) -
         return False
     acc[k] = acc.get(k, 0) + sign
     return True
+
+
+def instance_timeout_is_own(idx: Index, res: Result, rule: str) -> bool:
+    """Shared by C17 and C16: the timeout stored in an instance's record is an object built for that instance in create_instance
+    (a dict literal / comprehension / dict(...) copy), never an attribute of the manager or a class/module-level object that all
+    instances would share.  Returns True when a sharing was reported."""
+    from ..util import deref
+    create = idx.func(SERVER, "InstanceManager.create_instance")
+    recs = [n for n in walk_no_nested(create.node) if isinstance(n, ast.Dict) and {"instance", "time", "timeout"} <= {const_str(k) for k in n.keys}]
+    bad = False
+    for rdict in recs:
+        m = {const_str(k): v for k, v in zip(rdict.keys, rdict.values)}
+        tv = m["timeout"]
+        if isinstance(tv, ast.Name):
+            defs = [a_.value for a_ in walk_no_nested(create.node) if isinstance(a_, ast.Assign) and isinstance(a_.targets[0], ast.Name) and a_.targets[0].id == tv.id]
+            tv = defs[-1] if defs else tv
+        own = isinstance(tv, (ast.Dict, ast.DictComp)) or (isinstance(tv, ast.Call) and call_name(tv) in ("dict", "deepcopy", "copy"))
+        shared = isinstance(tv, ast.Attribute) or (isinstance(tv, ast.Name) and tv.id not in params(create.node))
+        if shared:
+            bad = True
+        res.check(rule, "the timeout in an instance record is that instance's own object", own or not shared, create.loc(m["timeout"]), create.qual,
+                  '"timeout": %s' % src(tv)[:60],
+                  "create_instance stores %s as the instance's timeout: one object shared by all instances of the manager (and updated in place for "
+                  "each new instance), so every earlier instance takes over the timeout of the most recently started one" % src(tv)[:60],
+                  key=rule + "/create_instance/shared-timeout-object")
+    return bad
 
 
 def check_c17(idx: Index, tier: str, res: Result) -> None:
@@ -1027,7 +1079,10 @@ def check_c17(idx: Index, tier: str, res: Result) -> None:
     create = idx.func(SERVER, "InstanceManager.create_instance")
     dicts = [n for n in walk_no_nested(create.node) if isinstance(n, ast.Dict)
              and {const_str(k) for k in n.keys if k is not None} & set(TIMEDELTA_UNITS)]
+    shared_timeout = instance_timeout_is_own(idx, res, "UNITS")
     if not dicts:
+        if shared_timeout:
+            return           # reported; the remaining unit rules need the per-instance dict
         raise AnalysisError("anchor vanished: timeout dict in create_instance")
     d = dicts[0]
     keys = [const_str(k) for k in d.keys]
@@ -1208,6 +1263,12 @@ def check_c16(idx: Index, tier: str, res: Result) -> None:
                       "%s stores %s as an instance: not a bptk object created by the factory for this record"
                       % (fi.qual, "; ".join(src(x)[:40] for x in vals) or src(v)), key="FACTORY/%s/record" % fi.qual)
     res.floor("instance records built", nrec, 2)
+    instance_timeout_is_own(idx, res, "FACTORY")
+    # what a factory registers (model objects, base dictionaries) may be one object for all the instances it builds: the scenario layer
+    # never writes such an object in place and never hands it to a scenario as its own
+    from .scenarios import clone_is_new_model_rule, scenario_dict_alias_rule
+    scenario_dict_alias_rule(idx, res, "NOSHARED")
+    clone_is_new_model_rule(idx, res, "NOSHARED")
     # records are stored under the id they were made for
     for name in ("create_instance", "reconstruct_instance"):
         fi = im.methods[name][-1]
@@ -1335,6 +1396,10 @@ def check_c16(idx: Index, tier: str, res: Result) -> None:
                                   "%s reads the module-level container %s, whose values include mutable objects (%s), without a deep copy: "
                                   "every bptk object of the process - i.e. every server instance - then writes into the same nested objects"
                                   % (fi.qual, gname, ", ".join(src(v) for v in nested)[:60]), key="STATICS/%s/module-template-%s" % (fi.qual, gname))
+    from ..util import shared_templates
+    for fi_, tname, node_, lit_, nested_ in shared_templates(idx, ["BPTK_Py/externalstateadapter/externalStateAdapter.py", SERVER]):
+        res.find("STATICS", "STATICS/%s/class-template-%s" % (fi_.qual, tname), fi_.loc(node_), fi_.qual, "%s = %s" % (tname, lit_),
+                 "%s uses the class-level template %s without a deep copy: the nested %s is shared by all instances of the process" % (fi_.qual, tname, nested_))
     # mutable default arguments written in place on the session path
     for qual in ("bptk.begin_session", "bptk.run_step", "bptk.run_scenarios", "bptk.session_results", "bptk.end_session"):
         fi = idx.func(BPTK, qual)
